@@ -30,6 +30,8 @@ type Book struct {
 	// package) and the further package documents some of them name
 	Rootfiles  []ERootfile
 	Alternates []AltPackage
+	// Spelling of container.xml and of the manifest / spine entries of the package documents
+	Sp Spelling
 }
 
 func dirOf(p string) string {
@@ -63,7 +65,7 @@ type ERootfile struct {
 }
 
 // packageXML renders one package document and its navigation members.
-func packageXML(version int, extras, infraFirst bool, opfPath, navName, ncxName, navText string, man, spine []EItem) (string, []Member) {
+func packageXML(sp Spelling, version int, extras, infraFirst bool, opfPath, navName, ncxName, navText string, man, spine []EItem) (string, []Member) {
 	dir := dirOf(opfPath)
 	hasNCX := version == 2 || extras
 	hasNav := version == 3
@@ -75,7 +77,6 @@ func packageXML(version int, extras, infraFirst bool, opfPath, navName, ncxName,
 		navItems.WriteString(`<item id="ncx" href="` + ncxName + `" media-type="application/x-dtbncx+xml"/>`)
 	}
 	var o strings.Builder
-	o.WriteString(`<?xml version="1.0" encoding="UTF-8"?>` + "\n")
 	fmt.Fprintf(&o, `<package xmlns="http://www.idpf.org/2007/opf" version="%d.0" unique-identifier="uid">`, version)
 	o.WriteString(`<metadata xmlns:dc="http://purl.org/dc/elements/1.1/" xmlns:opf="http://www.idpf.org/2007/opf">` +
 		`<dc:identifier id="uid">urn:uuid:00000000-0000-4000-8000-000000000017</dc:identifier><dc:title>Book</dc:title><dc:language>en</dc:language>`)
@@ -87,8 +88,9 @@ func packageXML(version int, extras, infraFirst bool, opfPath, navName, ncxName,
 		o.WriteString(navItems.String())
 	}
 	for _, c := range man {
-		fmt.Fprintf(&o, `<item id="%s" href="%s" media-type="application/xhtml+xml"/>`, esc(c.ItemID), esc(c.Href))
+		o.WriteString(sp.sep() + sp.el("item", []attr{{"id", c.ItemID}, {"href", c.Href}, {"media-type", "application/xhtml+xml"}}))
 	}
+	o.WriteString(sp.sep())
 	if !infraFirst {
 		o.WriteString(navItems.String())
 	}
@@ -98,10 +100,14 @@ func packageXML(version int, extras, infraFirst bool, opfPath, navName, ncxName,
 	} else {
 		o.WriteString(`<spine>`)
 	}
-	for _, c := range spine {
-		fmt.Fprintf(&o, `<itemref idref="%s"/>`, esc(c.ItemID))
+	for i, c := range spine {
+		as := []attr{{"idref", c.ItemID}, {"linear", "yes"}}
+		if sp.Foreign { // the itemref's own optional id attribute
+			as = append(as, attr{"id", fmt.Sprintf("ir%d", i+1)})
+		}
+		o.WriteString(sp.sep() + sp.el("itemref", as))
 	}
-	o.WriteString(`</spine>`)
+	o.WriteString(sp.sep() + `</spine>`)
 	if version == 2 && extras && len(spine) > 0 {
 		fmt.Fprintf(&o, `<guide><reference type="text" title="Start" href="%s"/></guide>`, esc(spine[0].Href))
 	}
@@ -131,7 +137,7 @@ func packageXML(version int, extras, infraFirst bool, opfPath, navName, ncxName,
 		n.WriteString(`</navMap></ncx>`)
 		nav = append(nav, mem(dir+ncxName, n.String()))
 	}
-	return o.String(), nav
+	return sp.doc(`<?xml version="1.0" encoding="UTF-8"?>`+"\n", o.String()), nav
 }
 
 // Members renders the package: mimetype first and stored (OCF 4.3), then the rest.
@@ -143,22 +149,22 @@ func (b *Book) Members() []Member {
 	for _, c := range sortedBy(b.Chapters, func(c EChapter) int { return c.DeclPos }) {
 		spine = append(spine, EItem{c.ItemID, c.Href})
 	}
-	opf, nav := packageXML(b.Version, b.Extras, b.InfraFirst, b.OPFPath, "nav.xhtml", "toc.ncx", b.NavText, man, spine)
+	opf, nav := packageXML(b.Sp, b.Version, b.Extras, b.InfraFirst, b.OPFPath, "nav.xhtml", "toc.ncx", b.NavText, man, spine)
 	roots := b.Rootfiles
 	if len(roots) == 0 {
 		roots = []ERootfile{{FullPath: b.OPFPath, MediaType: "application/oebps-package+xml"}}
 	}
 	var c strings.Builder
-	c.WriteString(`<?xml version="1.0" encoding="UTF-8"?>` + "\n" +
-		`<container version="1.0" xmlns="urn:oasis:names:tc:opendocument:xmlns:container"><rootfiles>`)
+	c.WriteString(`<container version="1.0" xmlns="urn:oasis:names:tc:opendocument:xmlns:container"><rootfiles>`)
 	for _, r := range roots {
-		c.WriteString(`<rootfile full-path="` + esc(r.FullPath) + `" media-type="` + esc(r.MediaType) + `"/>`)
+		c.WriteString(b.Sp.sep() + b.Sp.el("rootfile", []attr{{"full-path", r.FullPath}, {"media-type", r.MediaType}}))
 	}
-	c.WriteString(`</rootfiles></container>`)
-	infra := []Member{mem("META-INF/container.xml", c.String()), mem(b.OPFPath, opf)}
+	c.WriteString(b.Sp.sep() + `</rootfiles></container>`)
+	containerXML := b.Sp.doc(`<?xml version="1.0" encoding="UTF-8"?>`+"\n", c.String())
+	infra := []Member{mem("META-INF/container.xml", containerXML), mem(b.OPFPath, opf)}
 	infra = append(infra, nav...)
 	for _, a := range b.Alternates {
-		aopf, anav := packageXML(b.Version, b.Extras, b.InfraFirst, a.OPFPath, "nav_"+a.Tag+".xhtml", "toc_"+a.Tag+".ncx", b.NavText, a.Spine, a.Spine)
+		aopf, anav := packageXML(b.Sp, b.Version, b.Extras, b.InfraFirst, a.OPFPath, "nav_"+a.Tag+".xhtml", "toc_"+a.Tag+".ncx", b.NavText, a.Spine, a.Spine)
 		infra = append(infra, mem(a.OPFPath, aopf))
 		infra = append(infra, anav...)
 	}
